@@ -24,7 +24,8 @@ func VerifC10Attachment() {
 	for r := 0; r < nReads; r++ {
 		kind := vrt_Choose("chunkKind", 4)
 		if r > 0 {
-			kind = 2 + vrt_Choose("secondKind", 2)
+			// a control frame, an announcement or half a frame (arbitrary bytes only as the first read)
+			kind = 1 + vrt_Choose("secondKind", 3)
 		}
 		if kind == 0 && nReads == 2 {
 			return // arbitrary bytes are explored as the only read
